@@ -35,6 +35,13 @@ type Raft struct {
 	// TimeoutP0 biases LeaderTimeout/ClientTimeout/UnreliableFD coin flips towards FALSE.
 	CoinP0   float64
 	Strings  []string
+	// TimeoutP0, when set, gives the probability that server sv's LeaderTimeout read answers
+	// FALSE (state-aware bias of the harness: a favoured candidate); nil = CoinP0.
+	TimeoutP0 func(sv int) float64
+	// Isolated servers neither obtain messages nor have their messages obtained by others,
+	// with high probability per attempt (message delay, as a partition produces; the spec's
+	// read is merely not taken: an aborted attempt is a step not scheduled).
+	Isolated map[int]bool
 }
 
 func str(s string) tla.Value { return tla.MakeString(s) }
@@ -107,6 +114,11 @@ func NewRaft(wd *env.World, n, c int, exploreFail bool, maxFail int, bufferSize 
 					return tla.Value{}, env.Abort
 				}
 				cands := env.BagElems(q)
+				if len(r.Isolated) > 0 {
+					if idx[0].IsNumber() && r.Isolated[int(idx[0].AsNumber())] && wd.W.ChooseP(sim.KNet, 20, 0.95) == 0 {
+						return tla.Value{}, env.Abort
+					}
+				}
 				if r.PerLinkFIFO {
 					// for each sender only its oldest message still in the mailbox
 					var eligible []tla.Value
@@ -129,6 +141,12 @@ func NewRaft(wd *env.World, n, c int, exploreFail bool, maxFail int, bufferSize 
 				return m, nil
 			},
 			func(wd *env.World, idx []tla.Value, v tla.Value) error {
+				if len(r.Isolated) > 0 && v.IsFunction() {
+					// an isolated server's sends do not leave it (the attempt is not taken now)
+					if src, ok := v.AsFunction().Get(str("msource")); ok && src.IsNumber() && r.Isolated[int(src.AsNumber())] && wd.W.ChooseP(sim.KNet, 20, 0.95) == 0 {
+						return env.Abort
+					}
+				}
 				box := env.FnGet(wd.Get("network"), idx[0])
 				if !box.ApplyFunction(str("enabled")).AsBool() {
 					return env.Abort
@@ -204,9 +222,14 @@ func NewRaft(wd *env.World, n, c int, exploreFail bool, maxFail int, bufferSize 
 				return nil
 			})
 	}
-	leaderTimeout := func() *env.Res {
+	leaderTimeout := func(sv int) *env.Res {
 		return wd.NewRes("leaderTimeout",
-			func(wd *env.World, idx []tla.Value) (tla.Value, error) { return tla.MakeBool(r.coin()), nil },
+			func(wd *env.World, idx []tla.Value) (tla.Value, error) {
+				if r.TimeoutP0 != nil {
+					return tla.MakeBool(r.WD.W.ChooseP(sim.KEither, 2, r.TimeoutP0(sv)) == 1), nil
+				}
+				return tla.MakeBool(r.coin()), nil
+			},
 			func(wd *env.World, idx []tla.Value, v tla.Value) error { wd.Set("leaderTimeout", v); return nil })
 	}
 	strSet := make([]tla.Value, len(strings))
@@ -236,7 +259,7 @@ func NewRaft(wd *env.World, n, c int, exploreFail bool, maxFail int, bufferSize 
 			p("commitIndex", wd.PlainVar("commitIndex")), p("nextIndex", wd.PlainVar("nextIndex")), p("matchIndex", wd.PlainVar("matchIndex")),
 			p("votedFor", wd.PlainVar("votedFor")), p("votesResponded", wd.PlainVar("votesResponded")), p("votesGranted", wd.PlainVar("votesGranted")),
 			p("leader", wd.PlainVar("leader")), p("sm", wd.PlainVar("sm")), p("smDomain", wd.PlainVar("smDomain")),
-			p("leaderTimeout", leaderTimeout()),
+			p("leaderTimeout", leaderTimeout(srvId)),
 			p("appendEntriesCh", channel("appendEntriesCh")), p("becomeLeaderCh", channel("becomeLeaderCh")),
 		}
 	}
